@@ -93,7 +93,7 @@ inductive Frame where
   | start (op : Nat)
   | cancel (obj : Nat) (snapshot : List Nat)      -- ops of `obj` that were in flight when Cancel was called
   | close (obj : Nat)
-  | sched (op obj : Nat) (wasArmed : Bool)
+  | sched (op obj : Nat) (wasArmed wasClosed : Bool)   -- state of the timer when Schedule* was called
   | tcancel (obj : Nat)
   | scheduled (obj : Nat)
   | post (op : Nat)
@@ -242,11 +242,10 @@ def retStep (s : S) (f : Frame) (r : Ret) : M S :=
     let s := mapOps s fun o => if o.obj == obj && o.kind != .post && (o.state == .inflight || o.state == .starting)
                                then { o with state := .dropped } else o
     .ok { s with closed := if s.closed.contains obj then s.closed else obj :: s.closed }
-  | .sched op obj wasArmed, .err isNil =>
+  | .sched op _ wasArmed closedT, .err isNil =>
     match findOp s op with
     | none => .ok s
     | some o =>
-      let closedT := s.closed.contains obj
       guarded [(closedT && isNil, "closed-timer-revived"), (wasArmed && isNil, "schedule-while-scheduled-accepted")]
         (if !isNil then setOp s { o with state := if o.state == .starting then .dropped else o.state }
          else if o.state == .starting then setOp s { o with state := .inflight } else s)
@@ -310,7 +309,7 @@ def step (s : S) : Ev → M S
   | .callSched op obj rep ticks =>
       guarded [((findOp s op).isSome, "op-id-reused")]
         { (setOp s { id := op, obj := obj, kind := if rep then .timerRep else .timerOnce, len := ticks.toNat, state := .starting }) with
-            stack := .sched op obj (armedTimer s obj).isSome :: s.stack }
+            stack := .sched op obj (armedTimer s obj).isSome (s.closed.contains obj) :: s.stack }
   | .callTCancel obj => .ok { s with stack := .tcancel obj :: s.stack }
   | .callScheduled obj => .ok { s with stack := .scheduled obj :: s.stack }
   | .callPost op =>
